@@ -37,6 +37,19 @@ def compare_modes(s, sub, need_side=True):
         if c0 != c1:
             raise H.Violation('C07:strict-tolerant-tree-differs', case, O.first_diff(c1, c0) or '')
         labels.append('strict-ok')
+    if sub in ('doc', 'enum:envname') or (len(s) % 4 == 0 and '\\begin{' in s):
+        # the conservative-extension clause holds under every other option too: user-listed verbatim-like names
+        sk = ('e', 'f', 'center', 'thm')
+        o0 = T.outcome(s, 0, skip_envs=sk)
+        if o0[0] == 'ok':
+            o1 = T.outcome(s, 1, skip_envs=sk)
+            if o1[0] != 'ok':
+                raise H.Violation('C07:strict-ok-tolerant-fails:skip_envs', dict(case, skip_envs=list(sk)),
+                                  'with skip_envs strict parses, tolerant raises %s' % o1[1])
+            if str(o0[1]) != str(o1[1]) or O.canon_tree(o0[1], skip=sk) != O.canon_tree(o1[1], skip=sk):
+                raise H.Violation('C07:strict-tolerant-differ:skip_envs', dict(case, skip_envs=list(sk)),
+                                  'with skip_envs strict gives %r, tolerant %r' % (str(o0[1])[:200], str(o1[1])[:200]))
+            labels.append('strict-ok:skip_envs')
     if out1[0] == 'ok':
         reason = T.side_conditions(s)
         if reason:
@@ -142,6 +155,7 @@ def plan(ctx):
     L = 3
     return [
         ('shard_enum', [('tok', 'A_TOK', L, i, 48) for i in range(48)] +
+                       [('envname', 'A_ENV', 3, i, 8) for i in range(8)] +
                        [('core', 'A_CORE', ctx.pick(3, 5), i, 32) for i in range(32)] +
                        [('cat', 'A_CAT', ctx.pick(2, 3), i, 32) for i in range(32)] +
                        ([('tokcore', 'A_TOK_CORE', 4, i, 64) for i in range(64)] if ctx.thorough else [])),
@@ -193,6 +207,9 @@ def shard_docs(ctx, shard):
 def replay(case):
     sub = case.get('sub', '')
     s = case['src']
+    if case.get('skip_envs'):
+        compare_modes(s, 'doc')
+        return
     if sub.startswith('lost-closer'):
         out0 = T.outcome(s, 0)
         out1 = T.outcome(s, 1)
